@@ -5,7 +5,11 @@ LEVEL = "proof"
 TITLE = "No message larger than the configured maximum is ever accepted or stored"
 LEVEL_TEXT = ("Coq theorems over the SMTP session model for every limit, every size and every input sequence: a DATA block longer than "
               "the limit gets 552 and delivers nothing (size_rule over all runs, oversize_data_refused), a declared SIZE above the limit "
-              "is never answered 250, blocks within the limit are accepted, and the session is usable afterwards; tied to the code by "
+              "is never answered 250, blocks within the limit are accepted (for a payload whose header block parses: within_limit_accepted has hdr = Some h), and the session is usable "
+              "afterwards; the DECLARED size is read without the regenerated patterns (declared_size_spec; size_seen_ok demands that wherever the patterns match the command the parameters "
+              "were seen, accepted and the SIZE among them is the declared one): declared_size_is_seen_wherever_it_stands and no_demand_inside_quoted_paths evaluate it with the regenerated "
+              "parser on SAMPLE commands on every run (7 + 2 commands - samples, not a universal statement), the runner applies it to the implementation's own parser facts on every case; "
+              "tied to the code by "
               "byte-level correspondence with limits 1..65536 and sizes straddling them, the size rule evaluated on the "
               "implementation's own replies and store as the oracle")
 LEVEL_NOTE = ("Coq kernel; extraction; the limit is compared with the un-stuffed payload length (LF line ends as ReadDotBytes yields them), "
@@ -15,7 +19,8 @@ RULE = ("limits {1,10,100,1000,5000,65536} x bodies padded to limit-2..limit+2, 
         "transactions per connection; distinct = distinct input line; non-trivial = the case contains a 552 reply or a stored message")
 TRUSTED = ["net.ParseIP verdicts and enmime header facts (From/To/Subject, parse error) are oracles supplied by the driver from the real functions"]
 ASSUMPTIONS = ["store operations do not fail"]
-NOT_PROVED = []
+NOT_PROVED = ["the regenerated MAIL parser sees every declared SIZE (universally): only sample commands are evaluated in Coq, every generated case by the oracle",
+              "memory: ReadDotBytes buffers a block of any length before the limit is compared"]
 
 
 def nontrivial(kind, ins, outs):
